@@ -77,6 +77,11 @@ def judge_error(case):
     comp = component_for("H2O")
     if kind == "missing_component":
         a, b = case["pair"]
+        if case.get("after_component_use"):
+            # a conversion WITH a component happened earlier in this process: the component-less one must still be rejected
+            for cn in ("H2O", "EtOH"):
+                core.call(U.Permeance(value=2.5, units=KG).convert, to_units="SI", component=component_for(cn))
+                core.call(U.Permeance(value=2.5, units="GPU").convert, to_units=KG, component=component_for(cn))
         st, r = core.call(U.Permeance(value=case["value"], units=a).convert, to_units=b)
         if st == "ok":
             return core.result("returned", viol=[core.viol("C14/missing_component_accepted", "%s -> %s without a component returns %r" % (a, b, r))])
@@ -122,6 +127,12 @@ def main(tier, seed):
                 cases += [{"kind": "missing_component", "pair": (a, b), "value": x} for x in (0.0, 1.0, 3.7e-3)]
             if a != b and KG not in (a, b):
                 cases += [{"kind": "no_component_needed", "pair": (a, b), "value": x} for x in (0.0, 1.0, 3.7e-3)]
+    for a in UNITS:  # the identity conversion needs no component, whatever the unit
+        cases += [{"kind": "no_component_needed", "pair": (a, a), "value": x} for x in (0.0, 1.0, 3.7e-3)]
+    for a in UNITS:
+        for b in UNITS:
+            if a != b and KG in (a, b):
+                cases += [{"kind": "missing_component", "pair": (a, b), "value": x, "after_component_use": True} for x in (1.0, 3.7e-3)]
     for a, b in (("SI", "barrer"), ("GPU", "mol/(m2*s*Pa)"), ("furlong", "SI"), ("kg/(m2*h*kPa)", "kg"), ("gpu", "GPU")):
         cases.append({"kind": "unknown_unit", "pair": (a, b), "value": 1.0})
     for x in (-1.0, -1e-300, -math.inf, math.nan, 0.0, 5.0):
